@@ -165,6 +165,10 @@ def run(job):
     a = raw_archive(cfg, loc)
     if not job.get('skip_prior'):
         for k, v in prior: a[k] = v
+    if cfg.get('symlink') and cfg['kind'] == 'file' and os.path.lexists(loc) and not os.path.islink(loc):
+        # the archive's path is a symbolic link to the file (a shared location linked into a project directory)
+        real = os.path.join(os.path.dirname(loc), 'real_' + os.path.basename(loc))          # (same extension: source archives are imported by name)
+        os.rename(loc, real); os.symlink(os.path.basename(real), loc)
     if op is None: return dict(log=[], exc=None)
     KILL_AT = job.get('kill_at'); TORN = job.get('torn', False)
     exc = None
